@@ -121,9 +121,7 @@ std::string nodeSig(const std::string& file, const std::string& name) {
 }
 
 std::string fold(uint64_t value, const SV& f, size_t from) {
-  const char* drop = getenv("SIG_DRIVER_DROP");
   for (size_t i = from; i < f.size(); i++) {
-    if (drop && i == from + (size_t)atoi(drop)) continue;
     const std::string& t = f[i];
     if (t.size() < 3 || t[1] != ':') return "ERR token " + t;
     std::string body = t.substr(2);
